@@ -48,7 +48,7 @@ def betweenness_bin(G):
     # calculate NSP and L
     while np.any(NSPd):
         d += 1
-        NPd = np.dot(NPd, G)
+        NPd = np.dot(NSPd, G)  # extend only the shortest paths: counts stay finite
         NSPd = NPd * (L == 0)
         NSP += NSPd
         L = L + d * (NSPd != 0)
